@@ -260,6 +260,15 @@ def step (st : St) (line : String) : St × String :=
         | _, _ => (st, "bad-op")
       | _ => (st, "bad-op")
     | _, _ => (st, "bad-op")
+  | ["preset", ep, conn, counter, win] =>
+    -- white-box preset used by the wrap-around scenarios: substream 0 send counter and receive window position
+    match lookupS ep st.eps, counter.toNat?, win.toNat? with
+    | some e, some cn, some wn =>
+      let (st', _) := withConn st ep e conn (fun _ c =>
+        let w0 := c.windows[0]?.getD { next := 1, packets := [] }
+        R.ok { c with counters := setAt c.counters 0 cn, windows := setAt c.windows 0 { w0 with next := wn } })
+      (st', "ok")
+    | _, _, _ => (st, "bad-op")
   | ["state", ep, conn] =>
     match lookupS ep st.eps with
     | some e => match connOf e conn with
